@@ -55,7 +55,7 @@ impl IntoCInt for ReceiveError {
 #[repr(C)]
 #[derive(Copy, Clone, CStrRepr)]
 pub enum iox2_connection_failure_e {
-    FAILED_TO_ESTABLISH_CONNECTION,
+    FAILED_TO_ESTABLISH_CONNECTION = IOX2_OK as isize + 1,
     UNABLE_TO_MAP_SENDERS_DATA_SEGMENT,
 }
 
